@@ -2,10 +2,14 @@
 Shared by the drivers of C12 and C13: parsing of a workload line, running the labelled
 transition system `Biogo.MorassConc.sys` under a forced schedule, rendering the observation.
 
-Input   `<tag> <conc 0|1> <chunk> <autoClear> <autoClean> <i|s> <ops> <sched> <fault>`
-          ops   comma separated  p<key>[:<tag>]  f  l  c
+Input   `<tag> <conc 0|1> <chunk> <autoClear> <autoClean> <i|s> <ops> <sched> <fault> [<opts>]`
+          ops   comma separated  p<key>[:<tag>]  f  l  c  x;  a last `u` = the caller ends with
+                `CleanUp` (after its last call, or after the call that made it give up)
           sched comma separated actor ids (0 = caller, k = k-th spawned writer) or `-`
-          fault `-` or `<point>:<n>` (the n-th execution, from 0, of that operation fails)
+          fault `-` or `<point>:<n>(+<point>:<n>)*`: a list of faults armed one after the other; the
+                armed one fires at the n-th execution (from 0) of its operation counted from the
+                moment it became armed (`MorassConc.Fault`)
+          opts  `-` or `r`: the concurrent caller, too, recovers with Clear after an error
 Observation `<flags> <status> <disk> <dir> <dirAfterCleanUp> <out>*`
           flags  one letter per schedule entry: r = ran one atomic block, b = blocked,
                  x = no such actor / actor has finished;  `-` for the empty schedule
@@ -15,6 +19,7 @@ Observation `<flags> <status> <disk> <dir> <dirAfterCleanUp> <out>*`
 import Biogo.Go.Wire
 import Biogo.Go.Interleave
 import Biogo.Model.MorassConc
+import Biogo.Model.MorassAbandon
 import Biogo.Drive.C11
 
 namespace Biogo.Drive.MorassWire
@@ -29,6 +34,8 @@ structure Work where
   ops : List Op
   sched : List Nat
   flt : Fault
+  reuse : Bool := false
+  abandon : Bool := false
 
 def parsePt (s : String) : Option Pt :=
   if s == "tempfile" then some .tempfile else if s == "encode" then some .encode
@@ -36,28 +43,44 @@ def parsePt (s : String) : Option Pt :=
   else if s == "fdecode" then some .fdecode else if s == "pdecode" then some .pdecode
   else if s == "close" then some .close else if s == "remove" then some .remove else none
 
-def parseFault (s : String) : Option Fault :=
-  if s == "-" then some none else
+def parseFault1 (s : String) : Option (Pt × Nat) :=
   match s.splitOn ":" with
   | [p, n] =>
     match parsePt p, parseNat n with
-    | some p, some n => some (some (p, n))
+    | some p, some n => some (p, n)
     | _, _ => none
   | _ => none
+
+def parseFault (s : String) : Option Fault :=
+  if s == "-" then some [] else (s.splitOn "+").mapM parseFault1
 
 def parseList {α} (f : String → Option α) (s : String) : Option (List α) :=
   if s == "-" then some [] else (s.splitOn ",").mapM f
 
+/-- the ops field: a last `u` is the caller's final `CleanUp` -/
+def parseOps (s : String) : Option (List Op × Bool) :=
+  if s == "-" then some ([], false) else
+  let toks := s.splitOn ","
+  if toks.getLast? == some "u" then (toks.dropLast.mapM Biogo.Drive.C11.parseOp).map (·, true)
+  else (toks.mapM Biogo.Drive.C11.parseOp).map (·, false)
+
+def parseWork8 (conc c ac acl ty ops sched flt opts : String) : Option Work :=
+  match parseBool conc, parseNat c, parseBool ac, parseBool acl,
+        parseOps ops, parseList parseNat sched, parseFault flt with
+  | some conc, some c, some ac, some acl, some (ops, abandon), some sched, some flt =>
+    if opts == "-" || opts == "r" then some ⟨conc, c, ac, acl, ty, ops, sched, flt, opts == "r", abandon⟩ else none
+  | _, _, _, _, _, _, _ => none
+
 def parseWork : List String → Option Work
-  | [conc, c, ac, acl, ty, ops, sched, flt] =>
-    match parseBool conc, parseNat c, parseBool ac, parseBool acl,
-          parseList Biogo.Drive.C11.parseOp ops, parseList parseNat sched, parseFault flt with
-    | some conc, some c, some ac, some acl, some ops, some sched, some flt =>
-      some ⟨conc, c, ac, acl, ty, ops, sched, flt⟩
-    | _, _, _, _, _, _, _ => none
+  | [conc, c, ac, acl, ty, ops, sched, flt] => parseWork8 conc c ac acl ty ops sched flt "-"
+  | [conc, c, ac, acl, ty, ops, sched, flt, opts] => parseWork8 conc c ac acl ty ops sched flt opts
   | _ => none
 
-def Work.sys (w : Work) : Sys CState Nat := MorassConc.sys w.conc w.chunk w.ac w.aclean w.ops w.flt
+def Work.sys (w : Work) : Sys CState Nat := MorassConc.sys w.conc w.chunk w.ac w.aclean w.ops w.flt w.reuse
+
+/-- the system with the caller's final `CleanUp` and `TempFile` failing in a removed directory -/
+def Work.sysA (w : Work) : Sys AState Nat :=
+  MorassConc.sysA w.conc w.chunk w.ac w.aclean w.ops w.flt w.reuse w.abandon
 
 /-- does the actor exist and still have something to do -/
 def alive (s : CState) : Nat → Bool
@@ -73,15 +96,36 @@ def forced (s : CState) : List Nat → CState × List Char
     | some s' => let (t, fl) := forced s' is; (t, 'r' :: fl)
     | none => let (t, fl) := forced s is; (t, 'b' :: fl)
 
+def aliveA (a : AState) : Nat → Bool
+  | 0 => !finishedA a
+  | k + 1 => alive a.s (k + 1)
+
+/-- forced schedule of the abandon system -/
+def forcedA (a : AState) : List Nat → AState × List Char
+  | [] => (a, [])
+  | i :: is =>
+    if !aliveA a i then let (t, fl) := forcedA a is; (t, 'x' :: fl) else
+    match MorassConc.stepA a i with
+    | some a' => let (t, fl) := forcedA a' is; (t, 'r' :: fl)
+    | none => let (t, fl) := forcedA a is; (t, 'b' :: fl)
+
 structure Result where
   flags : String
   final : CState
   outs : List Out
+  done : Bool      -- the caller has returned from every call (its final `CleanUp` included)
+  inflight : Nat := 0   -- abandon: `write()` activations that had not ended when `CleanUp` ran
 
 def runWork (w : Work) : Result :=
-  let (s1, fl) := forced w.sys.init w.sched
-  let s2 := finish w.sys actors (20 * (w.ops.length + 4) * (w.chunk + 8)) s1
-  ⟨if fl.isEmpty then "-" else String.ofList fl, s2, s2.outs.reverse⟩
+  let fuel := 20 * (w.ops.length + 4) * (w.chunk + 8)
+  if w.abandon then
+    let (a1, fl) := forcedA w.sysA.init w.sched
+    let a2 := finish w.sysA actorsA fuel a1
+    ⟨if fl.isEmpty then "-" else String.ofList fl, a2.s, a2.s.outs.reverse, finishedA a2, a2.inflight⟩
+  else
+    let (s1, fl) := forced w.sys.init w.sched
+    let s2 := finish w.sys actors fuel s1
+    ⟨if fl.isEmpty then "-" else String.ofList fl, s2, s2.outs.reverse, finished s2, 0⟩
 
 def showOutK (o : Out) : String :=
   match o.res with
@@ -91,7 +135,7 @@ def showOutK (o : Out) : String :=
 
 /-- the model's observation (keys only) -/
 def Result.render (r : Result) : String :=
-  let st := if finished r.final then "done" else "deadlock"
+  let st := if r.done then "done" else "deadlock"
   let disk : Int := if r.final.dirExists then r.final.onDisk else -1
   s!"{r.flags} {st} {disk} {showBool r.final.dirExists} 0 " ++ " ".intercalate (r.outs.map showOutK)
 
